@@ -264,10 +264,12 @@ def gen_pattern(shape, x, y, z):
         "([%s] AND [%s]) OR ([%s] AND [%s])" % (A, A, A, B), "[%s] AND [%s]" % (A, A), "([%s] AND [%s]) OR ([%s] AND [%s] AND [%s])" % (A, B, A, B, C),
         "([%s] AND [%s] AND [%s]) OR ([%s] AND [%s])" % (A, A, B, A, B), "([%s] FOLLOWEDBY [%s]) OR ([%s] FOLLOWEDBY [%s])" % (A, A, A, B),
         "(([%s] OR [%s]) AND [%s]) OR ([%s] AND [%s])" % (A, A, B, A, B),
+        # OR over children with DIFFERENT operators: an ordered sequence is not implied by an unordered conjunction that contains it
+        "([%s] FOLLOWEDBY [%s]) OR ([%s] AND [%s] AND [%s])" % (A, B, A, B, C), "([%s] AND [%s]) OR ([%s] FOLLOWEDBY [%s] FOLLOWEDBY [%s])" % (A, B, A, B, C),
     ][shape]
 
 
-NSHAPE = 29
+NSHAPE = 31
 NAT = len(ATOMS_T)
 NX, NY, NZ = (4, 3, 1) if TIER == "quick" else (NAT, NAT, 2)
 
